@@ -6,6 +6,7 @@ CONSTANTS
   ExitLinked = TRUE
   StopAfterAnswer = FALSE
   ResumeAllEdges = FALSE
+  StartNodePerFlow = TRUE
   StepCap = 600
   CheckLoader = FALSE
 INIT GInit
